@@ -27,6 +27,8 @@ PARTIAL = {
     'fr.siret': lambda v: range(len(v)) if not v.startswith('356000000') else (),
 }
 SUBST += sorted(PARTIAL)
+# documented prefixed spellings (country code / label kept out of the canonical form), from the module docstrings
+PREFIXED = {'it.iva': 'IT', 'at.uid': 'AT', 'hr.oib': 'HR', 'de.vat': 'DE', 'grid': 'GRID:', 'rs.pib': 'RS', 'se.orgnr': 'SE', 'fr.siren': 'FR'}
 SWAP = ['isbn', 'issn', 'isni', 'iban', 'lei', 'iso11649', 'in_.aadhaar', 'in_.vid']
 
 
@@ -79,6 +81,23 @@ def prop(case, res):
                 res.evals += 1
                 if r2[0] == 'ok':
                     res.violation('isbn|substitution-accepted|convert=True', 'c17', case, {'number': x, 'pos': i, 'replacement': b, 'validate': r2[1]})
+    pre = PREFIXED.get(name)
+    if pre and res.hist['prefixed:' + name] < 40 and core.out(m.is_valid, pre + x) == ('ok', True):
+        # the documented prefixed spelling is a valid number too: its letters are covered by the statement
+        res.hist['prefixed:' + name] += 1
+        for i, a in enumerate(pre):
+            if not a.isalpha():
+                continue
+            for b in gen.cls(a):
+                if b == a:
+                    continue
+                res.evals += 1
+                res.nontrivial_extra += 1
+                y = pre[:i] + b + pre[i + 1:] + x
+                r = core.out(m.is_valid, y)
+                if r != ('ok', False):
+                    res.violation('%s|prefix-substitution-%s' % (name, 'accepted' if r[0] == 'ok' else 'crash'), 'c17', case,
+                                  {'number': pre + x, 'pos': i, 'replacement': b, 'is_valid': [str(t) for t in r]})
     if name in SWAP and swap_scope(name, x):
         for i in range(len(x) - 1):
             a, b = x[i], x[i + 1]
